@@ -46,4 +46,9 @@ CHECKS = {
             "assumptions": CLI_ASSUME + ["int range tokens with a span above 10^4 are outside the stated domain and discarded (counted)", "'no hang' is decided up to a 10 s bound per call (normal cost: microseconds); a process time-out is confirmed by an isolated replay before it is reported"],
             "subs": [sub("TestC19_robust", 30000, 1600000, 16, qshards=2), sub("TestC19_seeds", 1, 1, 1, rapid=False)],
             "fuzz": [{"target": "FuzzC19_bytes", "sub": "robust", "time": 120}, {"target": "FuzzC19_robust", "sub": "robust", "time": 120}]},
+    "C18": {"pkg": "cli", "assumptions": CLI_ASSUME + ["sections are located through the exported text.Help*Header variables; entries by their 4-space head indentation", "default renderings accepted: %f/%g for floats, quoted or raw for strings, [] and {} for slices and maps"],
+            "subs": [sub("TestC18_help", 3000, 120000, 16)]},
+    "C17": {"pkg": "cli", "assumptions": CLI_ASSUME + ["no require-order (the program name in COMP_LINE is itself the stop token there) and no `--` among the earlier words: outside the statement", "args consistent with what the shell passes: [program, word being completed, previous word]", "in-process through the verif hook (exit function and completion writer)"],
+            "subs": [sub("TestC17_completion", 24000, 1600000, 16)],
+            "fuzz": [{"target": "FuzzC17_completion", "sub": "completion", "time": 90}]},
 }
